@@ -308,3 +308,124 @@ def evaluate_frame(cases):
         ok = obs["exit"] == [0, 0] and not obs["files_that_differ_beyond_the_mapped_name"]
         outs.append(Outcome(dict(c, what="project-frame"), True, ok, detail=obs))
     return outs
+
+
+# ---------------------------------------------------------------------------------------------------------------
+# one forced generation with a table, variants of the PROJECT or of the CONFIGURATION FILE around it:
+#  * siblings: oddly typed sibling settings of plugins.typegen next to a valid typeMappings table - the run must be
+#    rejected or the mapping must apply, never silently dropped;
+#  * decl: the project itself declares the mapped name (type alias / struct / enum; in the same file, in a file that
+#    sorts earlier or later than the use site) - the mapping must win at every site, and N must not be declared.
+NAMES["Timestamp"] = (["p", "Timestamp", []], True)
+DECLS = {"alias": "pub type Timestamp = i64;\n",
+         "struct": "#[derive(Serialize, Deserialize)]\npub struct Timestamp { pub secs: i64 }\n",
+         "enum": "#[derive(Serialize, Deserialize)]\npub enum Timestamp { Early, Late }\n"}
+SIBLING_KEYS = ["excludePatterns", "includePatterns", "verbose", "visualizeDeps", "includePrivate", "force",
+                "defaultParameterCase", "defaultFieldCase", "someFutureSetting"]
+WRONG_VALUES = ["tests/**", 5, True, None, {"a": 1}, [1, 2], [["x"]]]
+
+
+def run_variant(case):
+    n, _ = NAMES[case["name"]]
+    src, site, tree, event = route_project(case["route"], n)
+    files = {"lib.rs": src}
+    if case.get("decl"):
+        kind, where = case["decl"]
+        if where == "same":
+            files["lib.rs"] = src.replace(HEADER, HEADER + DECLS[kind], 1)
+        else:
+            files[("a_decl.rs" if where == "earlier" else "z_decl.rs")] = HEADER + DECLS[kind]
+    mode = case["mode"]
+    obs = {}
+    with vlib.Sandbox("c18v") as sb:
+        for f, text in files.items():
+            sb.write("proj/src-tauri/src/" + f, text)
+
+        def gen(table, out):
+            if case["source"] == "tauri":
+                tg = {"projectPath": "./src-tauri", "outputPath": "./" + out, "validationLibrary": mode}
+                if table is not None:
+                    tg["typeMappings"] = table
+                if case.get("sibling"):
+                    tg[case["sibling"][0]] = case["sibling"][1]
+                sb.write("proj/tauri.conf.json", json.dumps({"productName": "x", "plugins": {"typegen": tg}}))
+                rc, log = sb.cli(["generate", "--force"], cwd=sb.path("proj"))
+            else:
+                cfg = {"project_path": sb.path("proj/src-tauri"), "output_path": sb.path("proj", out), "validation_library": mode}
+                if table is not None:
+                    cfg["type_mappings"] = table
+                sb.write("cfg.json", json.dumps(cfg))
+                rc, log = sb.cli(["generate", "-c", sb.path("cfg.json"), "--force"])
+            return rc, log, ts_files(sb, os.path.join("proj", out))
+
+        rc, log, with_t = gen(case["table"], "with")
+        _, _, plain = gen(None, "plain")
+    obs["exit"] = rc
+    obs["log_tail"] = log[-200:] if rc else ""
+    obs["site"] = site
+    obs["with_table"] = site_text(with_t, site, mode, event)
+    obs["without_table"] = site_text(plain, site, mode, event)
+    obs["declared_with_table"] = sorted(set(re.findall(r"export (?:interface|type|const) (\w+)", with_t.get("types.ts", ""))))
+    return obs, tree
+
+
+def evaluate_variants(cases, stream):
+    results = vlib.pmap(run_variant, cases)
+    sexps = []
+    for c, (obs, tree) in zip(cases, results):
+        sexps.append(sx([T.sx_ty(tree), [[k, v] for k, v in sorted(c["table"].items())],
+                         [obs["with_table"] or "" for _ in range(10)], [obs["without_table"] or "" for _ in range(10)]]))
+    res = vlib.run_runner("c18-emit", sexps)
+    outs = []
+    for c, (obs, tree), r in zip(cases, results, res):
+        idx = ["none", "zod"].index(c["mode"]) * 5 + SITES.index(obs["site"])
+        model_text, ok, _abs, _cl = r[3][idx]
+        obs["model_with_table"] = model_text
+        if obs["exit"] != 0:
+            # a rejected configuration is acceptable for an oddly typed sibling setting, and only there
+            okb = bool(c.get("sibling"))
+            outs.append(Outcome(dict(c, what=stream), okb, okb, detail=obs))
+            continue
+        site_ok = ok == "true"
+        name = c["name"]
+        declared = name in obs["declared_with_table"] or (name + "Schema") in obs["declared_with_table"]
+        kf = None
+        corr = obs["with_table"] == model_text
+        if c.get("decl"):
+            # HEAD: the mapping wins at every site; a mapped project struct / enum is nevertheless still declared (C18-4)
+            corr = corr and declared == (c["decl"][0] in ("struct", "enum"))
+            if c["decl"][0] in ("struct", "enum"):
+                kf = "C18-4"
+        okb = site_ok and not declared
+        outs.append(Outcome(dict(c, what=stream), corr, okb, kf=kf, detail=obs))
+    return outs
+
+
+def sibling_cases(tier):
+    out = []
+    i = 0
+    for key in SIBLING_KEYS:
+        for val in WRONG_VALUES:
+            routes = ["param", "event_let", "field", "channel", "return"] if tier == "thorough" else [["param", "event_let", "field"][i % 3]]
+            for route in routes:
+                out.append({"route": route, "name": "Uuid", "mode": MODES[i % 2], "source": "tauri", "table": {"Uuid": TARGETS3[i % 3]},
+                            "sibling": [key, val]})
+            i += 1
+    return out
+
+
+TARGETS3 = ["number", "string", "boolean"]
+
+
+def decl_cases(tier):
+    out = []
+    i = 0
+    for kind in DECLS:
+        for where in ("same", "earlier", "later"):
+            for route in ("param", "return", "field", "field_nested", "channel", "event_let", "event_helper", "return_err"):
+                combos = [(s, m) for s in SOURCES for m in MODES] if tier == "thorough" else [(SOURCES[i % 2], MODES[(i // 2) % 2])]
+                i += 1
+                for s, m in combos:
+                    out.append({"route": route, "name": "Timestamp", "mode": m, "source": s, "table": {"Timestamp": TARGETS3[i % 3]},
+                                "decl": [kind, where]})
+    return out
